@@ -807,6 +807,9 @@ func (g *vGenSess) single() {
 	g.op("new %s%s -", g.cfg("A", lite, r.chance(1, 3)), g.tcpCfg())
 	net0 := 0
 	addrA := 16
+	if r.chance(1, 4) {
+		addrA = 18 // slot 2 = port 65535, the largest port
+	}
 	tbase := 0 // the peer's candidates live on the transport of A's first local candidate
 	if g.tcp && r.chance(1, 2) {
 		addrA, tbase = vTCPBase+16, vTCPBase
